@@ -11,6 +11,8 @@ import (
 	"time"
 
 	liqV2types "github.com/comdex-official/comdex/x/liquidationsV2/types"
+	sdk "github.com/cosmos/cosmos-sdk/types"
+	govv1beta1 "github.com/cosmos/cosmos-sdk/x/gov/types/v1beta1"
 
 	"verif/ev"
 	"verif/inject"
@@ -53,7 +55,16 @@ var c16Recorders = map[string]func(t *testing.T, rec *ev.Rec, u c16Universe, ste
 		cu.c.App.NewliqKeeper.SetParams(cu.c.Ctx(), liqV2types.Params{LiquidationBatchSize: uint64([]int{200, 3}[u.Variant%2])})
 		cu.c.Tape = &sim.Tape{}
 		r := newCdpRunner(cu, rng("C16", u.Name, u.Variant), rec, cdpCfg{priceMoves: true, bids: true, lockers: true, unsolicited: true, liquidateMsg: true, limitBids: true, unsafeBias: true, reserve: true, maxGap: 3 * 24 * time.Hour})
-		r.run(steps)
+		r.run(steps / 2)
+		// governance traffic passes through the application's own ante decorators (proposal spam filter)
+		for i, dep := range []int64{3_000_000, 1, 20_000_000} {
+			a := cu.c.Accts[i%len(cu.c.Accts)]
+			content := govv1beta1.NewTextProposal(fmt.Sprintf("verif %d", i), "text proposal placed by the replay workload")
+			if msg, err := govv1beta1.NewMsgSubmitProposal(content, sdk.NewCoins(sdk.NewCoin("stake", sdk.NewInt(dep))), a.Addr); err == nil {
+				r.tx("gov_submit_proposal_legacy", a, msg, fmt.Sprintf("initial deposit %dstake", dep))
+			}
+		}
+		r.run(steps - steps/2)
 		// make sure the tape ends on a block boundary so that the last app hash covers everything
 		r.block(6 * time.Second)
 		r.block(6 * time.Second)
